@@ -80,7 +80,13 @@ pub static mut TRACE: bool = false;
 /// Depth-first walk of the input trie. A word is extended only if the run on it polled the input
 /// past its end (otherwise the outcome cannot depend on what follows).
 pub fn explore(t: u8, l: usize, id: usize, run: &dyn Fn(&[u8], u8) -> (String, usize, bool)) {
-    fn rec(w: &mut Vec<u8>, t: u8, l: usize, id: usize, run: &dyn Fn(&[u8], u8) -> (String, usize, bool)) {
+    let budget = Cell::new(60_000usize); // words per module; deeper words are not run once it is used up
+    fn rec(w: &mut Vec<u8>, t: u8, l: usize, id: usize, run: &dyn Fn(&[u8], u8) -> (String, usize, bool), budget: &Cell<usize>) {
+        if budget.get() == 0 {
+            println!("B|{}", id);
+            return;
+        }
+        budget.set(budget.get() - 1);
         let ws: String = w.iter().map(|x| (b'a' + *x) as char).collect();
         let mut reached_end = false;
         let out = std::io::stdout();
@@ -102,11 +108,11 @@ pub fn explore(t: u8, l: usize, id: usize, run: &dyn Fn(&[u8], u8) -> (String, u
         }
         for a in 0..t {
             w.push(a);
-            rec(w, t, l, id, run);
+            rec(w, t, l, id, run, budget);
             w.pop();
         }
     }
-    rec(&mut vec![], t, l, id, run);
+    rec(&mut vec![], t, l, id, run, &budget);
 }
 "#;
 
@@ -134,6 +140,8 @@ pub struct RealResults {
     pub compile_errors: Vec<Option<String>>,
     /// per module: the (word, mode) on which `parse` did not return within the time limit
     pub hangs: Vec<Option<(Vec<u8>, u8)>>,
+    /// per module: the runner's word budget was used up (deeper words were not run)
+    pub capped: Vec<bool>,
     pub compile_s: f64,
     pub run_s: f64,
     pub runs: u64,
@@ -377,6 +385,7 @@ pub fn run_real(mods: &[RealModule], tag: &str) -> RealResults {
     let run_s = t1.elapsed().as_secs_f64();
     let mut obs: Vec<HashMap<(Vec<u8>, u8), Obs>> = (0..n).map(|_| HashMap::new()).collect();
     let mut hangs: Vec<Option<(Vec<u8>, u8)>> = vec![None; n];
+    let mut capped = vec![false; n];
     let mut runs = 0u64;
     for (out, culprits) in outputs {
         for (i, w, m) in culprits {
@@ -385,6 +394,14 @@ pub fn run_real(mods: &[RealModule], tag: &str) -> RealResults {
             }
         }
         for line in out.lines() {
+            if let Some(id) = line.strip_prefix("B|") {
+                if let Ok(id) = id.parse::<usize>() {
+                    if id < n {
+                        capped[id] = true;
+                    }
+                }
+                continue;
+            }
             if !line.starts_with("R|") {
                 continue;
             }
@@ -399,7 +416,7 @@ pub fn run_real(mods: &[RealModule], tag: &str) -> RealResults {
             obs[id].insert((w.bytes().map(|x| x - b'a').collect(), mode), Obs { desc: d.to_string(), count: c, polled_after_end: a == "1" });
         }
     }
-    RealResults { obs, compile_errors, hangs, compile_s, run_s, runs }
+    RealResults { obs, compile_errors, hangs, capped, compile_s, run_s, runs }
 }
 
 pub struct CompileUnit {
